@@ -21,6 +21,7 @@ RULE = ("exhaustive enumeration of all strings over the 14-symbol critical alpha
         "order); independent scanner over the encoded form (no LF, every ; and , preceded by an odd number "
         "of backslashes). Non-trivial: the string (or an item) contains one of \\ ; , CR LF; distinct by "
         "construction (enumeration) or by hash (Hypothesis).")
+RULE += ' Rounds 7-8: escape sequences of neighbouring syntaxes (carets, percent escapes in both cases, quoted-printable, C escapes, entities), noncharacters / private-use / replacement characters among the specials.'
 ASSUMPTIONS = ["vText/vCategory/Event API as imported from the working tree",
                "a lone CR is data, not a line break (RFC 5545 line break is CRLF)"]
 REQUIRED_CLASSES = ["path:codec", "path:prop", "path:cat", "path:catcodec", "has-backslash", "has-crlf"]
